@@ -2108,3 +2108,143 @@ pub(crate) fn script_deletes() -> u32 {
     unsafe { SCRIPT_DELETES }
 }
 
+
+/// free_cluster_chain (used by delete) over the ghost FAT: every cluster of any
+/// well-formed chain becomes free, nothing else changes, the free count grows
+/// by the chain length; a start cluster outside the volume (zero-length file,
+/// corrupt entry) frees nothing and touches nothing.
+#[kani::proof]
+#[kani::unwind(12)]
+#[kani::stub(crate::fat::volume::FatVolume::next_cluster, stub_next_cluster)]
+#[kani::stub(crate::fat::volume::FatVolume::update_fat, stub_update_fat)]
+fn c05_free_chain_abstract_fat() {
+    let mut fat0 = [0u32; 8];
+    fat0[0] = 0x0FFF_FFF8;
+    fat0[1] = G_EOC;
+    let mut c = 2;
+    while c < 6 {
+        let e: u32 = kani::any();
+        kani::assume(e == 0 || e >= 0x0FFF_FFF8 && e <= G_EOC || (e >= 2 && e < 6));
+        fat0[c] = e;
+        c += 1;
+    }
+    let first: u32 = kani::any();
+    let in_range = first >= 2 && first < 6;
+    let len = if in_range { ghost_chain_len(&fat0, first) } else { 0 };
+    kani::assume(!in_range || len >= 1);
+    unsafe {
+        GFAT = fat0;
+        GLOG_N = 0;
+    }
+    let mut vol = g32a();
+    let count0: Option<u32> = if kani::any() { Some(kani::any()) } else { None };
+    vol.free_clusters_count = count0;
+    let hint0: Option<u32> = if kani::any() { Some(kani::any()) } else { None };
+    vol.next_free_cluster = hint0.map(ClusterId);
+    let blocks: [Block; G32A_N] = zero_blocks();
+    let mut cache = BlockCache::new(SymDisk::new(0, blocks));
+    let r = vol.free_cluster_chain(&mut cache, ClusterId(first));
+    assert!(r.is_ok(), "free_chain: failed on a well-formed chain / an unallocated file");
+    let fat1 = unsafe { GFAT };
+    let mut member = [false; 8];
+    let mut cur = first;
+    let mut i = 0;
+    while i < 4 {
+        if i < len {
+            member[cur as usize] = true;
+            assert!(fat1[cur as usize] == 0, "space.reclaim: a cluster of the freed chain is still marked in use");
+            let e = fat0[cur as usize];
+            if e >= 2 && e < 6 {
+                cur = e;
+            }
+        }
+        i += 1;
+    }
+    c = 0;
+    while c < 8 {
+        if !member[c] {
+            assert!(fat1[c] == fat0[c], "fat.frame: freeing a chain changed a FAT entry outside the chain");
+        }
+        c += 1;
+    }
+    match (count0, vol.free_clusters_count) {
+        (Some(a), Some(b)) => assert!(b == a.saturating_add(len as u32), "info.count: free-cluster count did not grow by the number of clusters freed"),
+        (None, None) => {}
+        _ => assert!(false, "info.count: unknown count must stay unknown"),
+    }
+    if len > 0 {
+        // the hint is either what it was or a cluster of the volume (one just freed)
+        let h1 = vol.next_free_cluster.map(|c| c.0);
+        assert!(h1 == hint0 || matches!(h1, Some(h) if h >= 2 && h < 6), "info.hint: next-free hint outside the volume after freeing a chain");
+    } else {
+        assert!(unsafe { GLOG_N } == 0, "free_chain: FAT written for a file without clusters");
+    }
+    kani::cover!(len == 4);
+    kani::cover!(len == 0 && first == 0);
+    kani::cover!(len == 1 && count0 == Some(u32::MAX));
+}
+
+
+// ------------------------------------------------------ make_dir (functional) ---
+/// make_dir in a FAT16 root (slot 0 = an existing file, rest free): the parent
+/// gets a directory entry whose cluster is a previously free, now end-of-chain
+/// cluster; that cluster holds "." (pointing at itself) and ".." (0 = root) and
+/// is otherwise zero; every other block of the volume - in particular the
+/// cluster that physically follows the new one - is unchanged.
+#[kani::proof]
+#[kani::unwind(514)]
+fn c03_make_dir_root16() {
+    let mut blocks: [Block; G16A_N] = zero_blocks();
+    blocks[G16A_FAT as usize] = fat16_concrete([0xFFFF, 0, 0xFFFF, 0]); // 2 used, 3 free, 4 used, 5 free
+    {
+        let r = &mut blocks[G16A_ROOT as usize].contents;
+        let name = *b"KEEP    DAT";
+        let mut i = 0;
+        while i < 11 {
+            r[i] = name[i];
+            i += 1;
+        }
+        r[11] = 0x20;
+        put16(r, 26, 2);
+    }
+    blocks[G16A_DATA as usize] = any_block(); // cluster 2 (KEEP's data)
+    blocks[(G16A_DATA + 1) as usize] = any_block(); // cluster 3: free, stale
+    blocks[(G16A_DATA + 2) as usize] = any_block(); // cluster 4: another file's data, directly after the new directory
+    let d2 = blocks[G16A_DATA as usize].clone();
+    let d4 = blocks[(G16A_DATA + 2) as usize].clone();
+    let root0 = blocks[G16A_ROOT as usize].clone();
+    let mut vol = g16a();
+    let mut cache = BlockCache::new(SymDisk::new(0, blocks));
+    let name = ShortFileName { contents: *b"SUB        " };
+    let r = vol.make_dir(&mut cache, &Clock(fixed_timestamp()), ClusterId::ROOT_DIR, name, Attributes::create_from_fat(Attributes::DIRECTORY));
+    assert!(r.is_ok(), "mkdir: failed although a slot and a cluster are free");
+    let dev = vk_bd::dev(&cache);
+    let root = dev.block(G16A_ROOT);
+    let fat = dev.block(G16A_FAT);
+    let c = le16(&root.contents, 32 + 26) as u32;
+    assert!(c == 3 || c == 5, "mkdir: directory cluster is not a previously free cluster");
+    assert!(f16(&fat, c) >= 0xFFF8, "mkdir: directory cluster not marked end-of-chain");
+    assert!(f16(&fat, 2) == 0xFFFF && f16(&fat, 4) == 0xFFFF, "fat.frame: mkdir changed another file's FAT entries");
+    assert!(root.contents[32] == b'S' && root.contents[32 + 11] & 0x10 != 0 && le32(&root.contents, 32 + 28) == 0, "mkdir: parent entry (name, directory attribute, size 0)");
+    let mut p = 0;
+    while p < 32 {
+        assert!(root.contents[p] == root0.contents[p], "dir.frame: mkdir changed another directory entry");
+        p += 1;
+    }
+    let d = dev.block(G16A_DATA + c - 2);
+    assert!(d.contents[0] == b'.' && d.contents[1] == b' ' && d.contents[11] & 0x10 != 0 && le16(&d.contents, 26) as u32 == c, "mkdir: '.' entry must designate the directory itself");
+    assert!(d.contents[32] == b'.' && d.contents[33] == b'.' && d.contents[34] == b' ' && d.contents[32 + 11] & 0x10 != 0 && le16(&d.contents, 32 + 26) == 0, "mkdir: '..' entry of a directory in the root must hold cluster 0");
+    p = 64;
+    while p < 512 {
+        assert!(d.contents[p] == 0, "mkdir: rest of the new directory cluster not zero (stale entries exposed)");
+        p += 1;
+    }
+    let n2 = dev.block(G16A_DATA);
+    let n4 = dev.block(G16A_DATA + 2);
+    p = 0;
+    while p < 512 {
+        assert!(n2.contents[p] == d2.contents[p] && n4.contents[p] == d4.contents[p], "write.region: mkdir changed a data cluster that belongs to another file");
+        p += 1;
+    }
+    kani::cover!(c == 3);
+}
